@@ -1,0 +1,49 @@
+//! Verification hooks (cargo feature `gohla_pie_verif`, off by default). Read-only; adds no behaviour.
+
+use crate::trait_object::{KeyObj, ValueObj};
+use crate::Pie;
+
+pub use crate::trait_object::task::OutputCheckerObj;
+
+/// Kind of a dumped edge.
+#[derive(Copy, Clone, Eq, PartialEq, Hash, Debug)]
+pub enum EdgeKind { ReservedRequire, Require, Read, Write }
+
+/// Kind and payload of a dumped node.
+#[derive(Clone, Debug)]
+pub enum NodeKind {
+  Resource(Box<dyn KeyObj>),
+  Task { task: Box<dyn KeyObj>, output: Option<Box<dyn ValueObj>> },
+}
+
+/// A dumped edge. `other` is the index (into [`StoreDump::nodes`]) of the node on the other side of the edge.
+#[derive(Clone, Debug)]
+pub struct EdgeDump {
+  pub other: Option<usize>,
+  pub kind: EdgeKind,
+  pub target: Option<Box<dyn KeyObj>>,
+  pub checker: Option<Box<dyn ValueObj>>,
+  pub stamp: Option<Box<dyn ValueObj>>,
+}
+
+/// A dumped node with its topological rank and its edges in the graph's iteration order.
+#[derive(Clone, Debug)]
+pub struct NodeDump {
+  pub rank: u32,
+  pub kind: NodeKind,
+  pub outgoing: Vec<EdgeDump>,
+  pub incoming: Vec<EdgeDump>,
+}
+
+/// Read-only copy of the dependency store; nodes are sorted by topological rank.
+#[derive(Clone, Debug)]
+pub struct StoreDump {
+  pub nodes: Vec<NodeDump>,
+  pub task_map: Vec<(Box<dyn KeyObj>, Option<usize>)>,
+  pub resource_map: Vec<(Box<dyn KeyObj>, Option<usize>)>,
+}
+
+impl<A> Pie<A> {
+  /// Verification hook: read-only copy of the dependency store.
+  pub fn verif_dump(&self) -> StoreDump { self.0.verif_store().verif_dump() }
+}
